@@ -280,7 +280,7 @@ func checkC15(c *Ctx) {
 	stdK := int64(-999)
 	stdAgree := true
 	nStd := 0
-	for _, fnm := range []string{"NewStdLog", "NewStdLogAt", "redirectStdLogAt"} {
+	for _, fnm := range []string{"NewStdLog", "NewStdLogAt", "RedirectStdLog", "RedirectStdLogAt"} {
 		f := c.Func(zp, fnm)
 		if f == nil {
 			continue
@@ -302,7 +302,7 @@ func checkC15(c *Ctx) {
 		if !has {
 			// delegating to another of the bridges takes over its constant
 			for _, cl := range Calls(f) {
-				if IsCallTo(cl, "go.uber.org/zap.NewStdLog", "go.uber.org/zap.NewStdLogAt", "go.uber.org/zap.redirectStdLogAt") {
+				if IsCallTo(cl, "go.uber.org/zap.NewStdLog", "go.uber.org/zap.NewStdLogAt", "go.uber.org/zap.RedirectStdLog", "go.uber.org/zap.RedirectStdLogAt") {
 					has = true
 				}
 			}
@@ -311,7 +311,7 @@ func checkC15(c *Ctx) {
 			nStd++
 		}
 	}
-	c.Check(stdAgree && nStd == 3, "R15.1", zp+".NewStdLog/NewStdLogAt/redirectStdLogAt", "std-depth-constant", token.NoPos, "the three std-log bridges add the same caller skip (%d)", stdK)
+	c.Check(stdAgree && nStd == 4, "R15.1", zp+".NewStdLog/NewStdLogAt/RedirectStdLog/RedirectStdLogAt", "std-depth-constant", token.NoPos, "the four std-log bridges (their unexported helpers included) add the same caller skip (%d)", stdK)
 	// AddCallerSkip is additive
 	if acs := c.Func(zp, "AddCallerSkip"); acs != nil {
 		ok := false
@@ -1102,27 +1102,62 @@ func c15Whole(c *Ctx) {
 		}
 		c.Check(!trunc && len(seqs) > 0 && nGrow > 0 && len(bad) == 0, "R15.5", cp.String(), "grows-until-not-full", cp.Pos(), "with depth = Full, on every path (%d explored, up to two re-captures; %d longer ones cut) the frames are handed on only after a capture that came back with room to spare; a full buffer is always re-captured into a bigger one (offending: %v)", len(seqs), cut, bad)
 	}
-	// pcs cut to the number of frames captured, on every path
-	var cuts []ssa.Instruction
-	InstrsDeep(cp, func(i ssa.Instruction) {
-		if st, ok := i.(*ssa.Store); ok && strings.HasSuffix(Desc(st.Addr), ".pcs") {
-			if sl, ok := st.Val.(*ssa.Slice); ok && sl.High != nil && sl.Low == nil {
-				h := Desc(sl.High)
-				if strings.HasPrefix(h, "φ") || strings.HasPrefix(h, "Callers(") {
-					cuts = append(cuts, i)
+	// pcs cut to the number of frames captured: by path exploration with depth fixed to each of its constants (up to
+	// two re-captures), what is handed to runtime.CallersFrames is buf[:n] where n is what a runtime.Callers call
+	// returned and buf is the buffer that very call filled
+	firstV, okFirst := c.ConstVal("go.uber.org/zap/internal/stacktrace", "First")
+	fullV2, okFull2 := c.ConstVal("go.uber.org/zap/internal/stacktrace", "Full")
+	if c.Anchor("R15.5", "stacktrace.First/Full / Capture(skip, depth)", okFirst && okFull2 && len(cp.Params) == 2) {
+		resolve := func(st *ConcState, v ssa.Value) ssa.Value {
+			for k := 0; k < 12; k++ {
+				nx := st.Step(v)
+				if nx == nil {
+					break
+				}
+				v = nx
+			}
+			return v
+		}
+		var bad []string
+		nUse := 0
+		for _, dv := range []int64{firstV, fullV2} {
+			dv := dv
+			cut := 0
+			seqs, trunc := ConcPaths(cp, ConcCfg{
+				MaxIter: 2, Cut: &cut,
+				Init: func(st *ConcState) { st.SetInt(cp.Params[1], dv) },
+				Event: func(in ssa.Instruction, st *ConcState) string {
+					x, ok := in.(*ssa.Call)
+					if !ok || !IsCallTo(x, "runtime.CallersFrames") || len(x.Call.Args) != 1 {
+						return ""
+					}
+					sl, isSl := resolve(st, x.Call.Args[0]).(*ssa.Slice)
+					if !isSl || sl.High == nil || sl.Low != nil {
+						return "use(uncut " + st.Desc(x.Call.Args[0]) + ")"
+					}
+					cl, isCall := resolve(st, sl.High).(*ssa.Call)
+					if !isCall || !IsCallTo(cl, "runtime.Callers") || len(cl.Call.Args) != 2 {
+						return "use(cut to " + st.Desc(sl.High) + ")"
+					}
+					if resolve(st, sl.X) != resolve(st, cl.Call.Args[1]) {
+						return "use(" + st.Desc(sl.X) + " cut to the count of a capture into " + st.Desc(cl.Call.Args[1]) + ")"
+					}
+					return "use(cut)"
+				},
+			})
+			if trunc || len(seqs) == 0 {
+				bad = append(bad, "depth="+itoa(int(dv))+": exploration incomplete")
+			}
+			for _, sq := range seqs {
+				if sq == "use(cut)" {
+					nUse++
+				} else {
+					bad = append(bad, "depth="+itoa(int(dv))+": "+sq)
 				}
 			}
 		}
-	})
-	isCut := func(i ssa.Instruction) bool {
-		for _, x := range cuts {
-			if x == i {
-				return true
-			}
-		}
-		return false
+		c.Check(nUse >= 2 && len(bad) == 0, "R15.5", cp.String(), "cut-to-count", cp.Pos(), "with depth First and with depth Full, on every path the frames handed on are the buffer of a runtime.Callers call cut to exactly the count that call returned: %v", uniqSorted(bad))
 	}
-	c.Check(len(cuts) >= 1 && !ExistsPath(cp, nil, IsReturn, isCut), "R15.5", cp.String(), "cut-to-count", cp.Pos(), "pcs is cut to exactly the number of frames captured on every path (%d cut site(s))", len(cuts))
 	fs := c.Method("go.uber.org/zap/internal/stacktrace", "Formatter", "FormatStack")
 	if c.Anchor("R15.5", "stacktrace.Formatter.FormatStack", fs != nil) {
 		var ff ssa.Instruction
@@ -1189,6 +1224,15 @@ func c15ConfigAnnotations(c *Ctx, rule string) {
 						switch {
 						case IsCallTo(x, ZapPath+".AddCaller"):
 							return "caller"
+						case IsCallTo(x, ZapPath+".WithCaller") && len(x.Call.Args) == 1:
+							// AddCaller is WithCaller(true); WithCaller(false) on the fresh logger annotates nothing
+							if k, known := st.Int(x.Call.Args[0]); known {
+								if k != 0 {
+									return "caller"
+								}
+								return ""
+							}
+							return "caller(?" + st.Desc(x.Call.Args[0]) + ")"
 						case IsCallTo(x, ZapPath+".Development"):
 							return "development"
 						case IsCallTo(x, ZapPath+".AddStacktrace"):
